@@ -242,11 +242,11 @@ def r16_3(prog, rep):
 
 def run(prog, rep, tier, snap):
     rep.rule("R16.1", "sort after every reordering transformation of the cache", 1)
-    r16_1(prog, rep)
+    rep.call(r16_1, prog, rep)
     rep.rule("R16.2", "UNTIL / DTSTART guards dominate every commit; stage order poss -> shift -> guards", 20)
-    r16_2(prog, rep)
+    rep.call(r16_2, prog, rep)
     rep.rule("R16.3", "COUNT accounting: clamp in every filler, decrement in refill", 9)
-    r16_3(prog, rep)
+    rep.call(r16_3, prog, rep)
     rep.rule("R09.1", "bounded occurrence-cache writes (shared with C09)", 10)
-    fillers.r09_1(prog, rep)
+    rep.call(fillers.r09_1, prog, rep)
 READY = True
